@@ -79,7 +79,7 @@ func NewLedger(seed int64, traceNo int, profile string, t *world.Tracer) (*Ledge
 	if profile == "single" {
 		n = 1
 	}
-	cfg := world.Config{NShards: n, Gas: world.StdGas(traceNo), EnableChange: traceNo%2 == 0, Activation: 0}
+	cfg := world.Config{NShards: n, WithMeta: true, Gas: world.StdGas(traceNo), EnableChange: traceNo%2 == 0, Activation: 0}
 	addrs := world.StdAddrs(n)
 	w, err := world.New(cfg, addrs)
 	if err != nil {
@@ -1117,6 +1117,33 @@ func (d *Ledger) actRogue() {
 	d.record("exec", d.shardOfName(caller), c)
 }
 
+// actForged: an ESDTTransfer arriving on the destination side without being one of the world's own messages (the node hands no sender
+// account): to ordinary accounts, and to the metachain contract on the metachain shard, where it must be refused.
+func (d *Ledger) actForged() {
+	rcpt := d.anyAcct()
+	if d.chance(40) {
+		rcpt = "meta1"
+	}
+	home := d.shardOfName(rcpt)
+	var caller string
+	for i := 0; i < 20; i++ {
+		caller = d.anyAcct()
+		if d.shardOfName(caller) != home {
+			break
+		}
+		caller = ""
+	}
+	if caller == "" {
+		return // single-shard world and an ordinary recipient: there is no "other shard"
+	}
+	args := [][]byte{d.pickTok(d.Fung), d.amt(int64(1 + d.R.Intn(3)))}
+	if d.chance(25) {
+		args = append(args, []byte("fn1"), []byte{1})
+	}
+	c := &world.Call{Fn: "ESDTTransfer", Caller: d.W.Addr(caller), Rcpt: d.W.Addr(rcpt), Args: args, Gas: d.gas(), Value: big.NewInt(0), CT: vmcommon.CallType(d.R.Intn(4))}
+	d.record("exec", home, c)
+}
+
 func (d *Ledger) actOracle() {
 	a := d.anyAcct()
 	v := []string{"yes", "no", "err", "yes"}[d.R.Intn(4)]
@@ -1206,7 +1233,7 @@ func (d *Ledger) Setup() {
 // DefaultWeights returns the action mix of a profile.
 func DefaultWeights(profile string) map[string]int {
 	w := map[string]int{"issue": 4, "setrole": 5, "unsetrole": 2, "transfer": 14, "nft": 12, "multi": 12, "deliver": 18, "mintburn": 8, "esdtburn": 3,
-		"create": 7, "nftrole": 8, "freeze": 6, "pause": 4, "handover": 3, "kv": 4, "acct": 4, "oracle": 2, "malformed": 5, "sched": 0, "epoch": 1, "rogue": 4}
+		"create": 7, "nftrole": 8, "freeze": 6, "pause": 4, "handover": 3, "kv": 4, "acct": 4, "oracle": 2, "malformed": 5, "sched": 0, "epoch": 1, "rogue": 4, "forged": 2}
 	switch profile {
 	case "transfer":
 		w["transfer"], w["nft"], w["multi"], w["deliver"] = 20, 20, 20, 25
@@ -1228,6 +1255,7 @@ func DefaultWeights(profile string) map[string]int {
 	case "gas":
 		w["sched"], w["kv"], w["create"], w["nftrole"], w["nft"], w["multi"], w["acct"], w["transfer"] = 6, 10, 12, 12, 18, 20, 8, 16
 	case "payable":
+		w["forged"] = 8
 		w["oracle"], w["transfer"], w["nft"], w["multi"], w["deliver"] = 8, 18, 18, 18, 22
 	}
 	return w
@@ -1293,6 +1321,8 @@ func (d *Ledger) Step() {
 		d.actMalformed()
 	case "rogue":
 		d.actRogue()
+	case "forged":
+		d.actForged()
 	case "sched":
 		d.actSched()
 	case "epoch":
